@@ -3,7 +3,7 @@
    the model ("no false alarm"), which is what links "agrees with the model" to "satisfies the oracle". *)
 From Coq Require Import Sorted.
 From Verif Require Import Base OMap Text Proto Bank Exec ExecFacts ExecInv ExecFacts2 ExecIso ChkExec ChkX Registry ExecReg
-  ExecOracle ExecOracleM ExecOracleE ExecOracleP ExecOracleF ExecOracleQ.
+  ExecOracle ExecOracleM ExecOracleE ExecOracleP ExecOracleF ExecOracleG ExecOracleR ExecOracleQ.
 Local Open Scope N_scope.
 
 (* the invariant of the state the model threads through a scenario: [L] = the nodes of the steps already run *)
@@ -70,9 +70,9 @@ Lemma c13_model_ok steps : wf_scenario steps -> check_with p_c13 ce (model_steps
 Proof.
   intros Hw. apply (oracle_ok p_c13 false); [|exact Hw|discriminate]. intros st s Hp _ _. apply p_c13_model, Hp.
 Qed.
-Lemma c03_model_ok steps : wf_scenario steps -> check_with p_c03 ce (model_steps ce steps empty_chain) = Agree.
+Lemma c03_model_ok steps : wf_scenario steps -> check_with (p_c03 ce) ce (model_steps ce steps empty_chain) = Agree.
 Proof.
-  intros Hw. apply (oracle_ok p_c03 false); [|exact Hw|discriminate]. intros st s Hp _ _. apply p_c03_model, Hp.
+  intros Hw. apply (oracle_ok (p_c03 ce) false); [|exact Hw|discriminate]. intros st s Hp _ _. apply p_c03_model, Hp.
 Qed.
 Lemma c04_model_ok steps : wf_scenario steps -> check_with p_c04 ce (model_steps ce steps empty_chain) = Agree.
 Proof.
